@@ -235,7 +235,16 @@ func (e *RaceEngine) closeOrder() {
 				}
 				b, ok := cc.Value.(*ssa.Builtin)
 				if !ok || b.Name() != "close" {
-					return
+					// defer func() { close(ch) }(): a deferred closure that does nothing but close
+					if d, isDefer := in.(*ssa.Defer); isDefer {
+						if inner := onlyCloses(d); inner != nil {
+							cc = inner
+						} else {
+							return
+						}
+					} else {
+						return
+					}
 				}
 				k, ok := chanKey(cc.Args[0])
 				if !ok {
@@ -259,20 +268,7 @@ func (e *RaceEngine) closeOrder() {
 					})
 				} else {
 					// followed only by return
-					blk := in.Block()
-					for i, x := range blk.Instrs {
-						if x == in {
-							rest := blk.Instrs[i+1:]
-							atExit = true
-							for _, y := range rest {
-								switch y.(type) {
-								case *ssa.Return, *ssa.RunDefers, *ssa.DebugRef:
-								default:
-									atExit = false
-								}
-							}
-						}
-					}
+					atExit = onlyReturnFollows(in)
 				}
 				if atExit {
 					closers[k] = append(closers[k], r)
@@ -1992,20 +1988,65 @@ func (e *RaceEngine) sendsOnEveryExit(r *Role) []FieldKey {
 }
 
 func onlyReturnFollows(in ssa.Instruction) bool {
-	blk := in.Block()
-	for i, x := range blk.Instrs {
-		if x == in {
-			for _, y := range blk.Instrs[i+1:] {
-				switch y.(type) {
-				case *ssa.Return, *ssa.RunDefers, *ssa.DebugRef:
-				default:
-					return false
-				}
-			}
+	trivial := func(y ssa.Instruction) bool {
+		switch y.(type) {
+		case *ssa.Return, *ssa.RunDefers, *ssa.DebugRef, *ssa.Jump, *ssa.Phi:
 			return true
 		}
+		return false
+	}
+	blk := in.Block()
+	started := false
+	for steps := 0; steps < 6; steps++ {
+		for _, y := range blk.Instrs {
+			if !started {
+				started = y == in
+				continue
+			}
+			if !trivial(y) {
+				return false
+			}
+			if _, isRet := y.(*ssa.Return); isRet {
+				return true
+			}
+		}
+		// an unconditional jump into a block that only merges and returns
+		if len(blk.Succs) != 1 {
+			return false
+		}
+		blk = blk.Succs[0]
 	}
 	return false
+}
+
+// onlyCloses: the deferred call runs a closure whose whole body is close(ch); returns that close.
+func onlyCloses(d *ssa.Defer) *ssa.CallCommon {
+	mc, ok := d.Call.Value.(*ssa.MakeClosure)
+	if !ok {
+		return nil
+	}
+	fn, ok := mc.Fn.(*ssa.Function)
+	if !ok || len(fn.Blocks) != 1 {
+		return nil
+	}
+	var found *ssa.CallCommon
+	n := 0
+	for _, in := range fn.Blocks[0].Instrs {
+		switch x := in.(type) {
+		case *ssa.Call:
+			n++
+			if b, isB := x.Call.Value.(*ssa.Builtin); isB && b.Name() == "close" {
+				found = &x.Call
+			}
+		case *ssa.UnOp, *ssa.FieldAddr, *ssa.Return, *ssa.DebugRef, *ssa.RunDefers:
+		default:
+			return nil
+		}
+	}
+	if n != 1 {
+		return nil
+	}
+	return found
 }
 
 // afterRunBarrier: the access executes only after a call of the run-done barrier wait
